@@ -24,6 +24,8 @@ fn frag() -> impl Strategy<Value = String> {
         6 => proptest::collection::vec(any::<u8>(), 1..24).prop_map(hex::encode),
         2 => proptest::collection::vec(any::<u8>(), 24..=600).prop_map(hex::encode),
         1 => (1usize..=600, any::<u8>()).prop_map(|(n, b)| hex::encode(vec![b; n])),
+        // long fragments: around and beyond sizes at which an implementation might switch strategy
+        1 => (prop::sample::select(vec![1023usize, 1024, 1025, 2047, 2048, 4096, 8191, 8192, 8193, 20000, 65536, 70000]), any::<u8>()).prop_map(|(n, b)| hex::encode(vec![b; n])),
     ]
 }
 
@@ -413,7 +415,7 @@ pub fn def() -> PropertyDef {
     PropertyDef {
         id: "C15",
         level: "exploration",
-        rule: "proptest cases: piece count 0..8 (one const-generic instantiation per N) x 0..4 fragments per piece x fragment lengths 0..600; oracle: output equals the reference PAE of the concatenated pieces, the reference PAE parser recovers exactly the piece list (injectivity), a recording streaming writer and the &mut adapter receive the same bytes, re-fragmenting does not change the output, and moving 1-3 bytes across a piece boundary always changes it; pieces of 2^31-1 .. 2^32+7 bytes (thorough 2^33+3), streamed as thousands of fragments of one buffer into a counting writer, carry their true 64-bit length and the stream has the prescribed total length; the back ends' private digest / MAC / signature writer adapters are exercised through tokens whose message, footer and assertion have every length 0..700, with and without a payload-encoding suffix in the fragmented header piece, on a fresh thread state and after rejected operations on the same thread: the tag / signature must be the one over the reference PAE (bit-exact token, independent verifier, sibling acceptance); end to end on every back end (also the versions without implicit assertions, which must refuse one rather than fold it into another piece): a token sealed for (footer F of 0..11 bytes, assertion A of 0..7 bytes) is accepted for no other split (F', A') of the byte string F || A. Non-trivial iff >= 2 pieces with a multi-fragment piece, or a boundary-shift pair was checked",
+        rule: "proptest cases: piece count 0..8 (one const-generic instantiation per N) x 0..4 fragments per piece x fragment lengths 0..600 plus long fragments (1023..70000 bytes); oracle: output equals the reference PAE of the concatenated pieces, the reference PAE parser recovers exactly the piece list (injectivity), a recording streaming writer and the &mut adapter receive the same bytes, re-fragmenting does not change the output, and moving 1-3 bytes across a piece boundary always changes it; pieces of 2^31-1 .. 2^32+7 bytes (thorough 2^33+3), streamed as thousands of fragments of one buffer into a counting writer, carry their true 64-bit length and the stream has the prescribed total length; the back ends' private digest / MAC / signature writer adapters are exercised through tokens whose message, footer and assertion have every length 0..700, with and without a payload-encoding suffix in the fragmented header piece, on a fresh thread state and after rejected operations on the same thread: the tag / signature must be the one over the reference PAE (bit-exact token, independent verifier, sibling acceptance); end to end on every back end (also the versions without implicit assertions, which must refuse one rather than fold it into another piece): a token sealed for (footer F of 0..11 bytes, assertion A of 0..7 bytes) is accepted for no other split (F', A') of the byte string F || A. Non-trivial iff >= 2 pieces with a multi-fragment piece, or a boundary-shift pair was checked",
         assumptions: vec!["the back ends' writer adapters are private: they are observed through the MAC / signature they produce"],
         subs,
     }
